@@ -96,7 +96,14 @@ func (s *adjacencyMapDigraph) NumNodes() uint64 {
 }
 
 func (s *adjacencyMapDigraph) NumEdges() uint64 {
-	return s.nodes.Cardinality()
+	// An edge is stored once in the outbound index of its start node
+	numEdges := uint64(0)
+
+	for _, adjacent := range s.outbound {
+		numEdges += adjacent.Cardinality()
+	}
+
+	return numEdges
 }
 
 func (s *adjacencyMapDigraph) getAdjacent(node uint64, direction graph.Direction) cardinality.Duplex[uint64] {
